@@ -68,8 +68,12 @@ func Run(ctx *core.Ctx) {
 		return
 	}
 	cases := buildCases(ctx, shapes)
+	t0 := time.Now()
 	st := explore(ctx, cases)
+	t1 := time.Now()
 	children(ctx, cases, st)
+	ctx.Extra["explore_wall_s"] = t1.Sub(t0).Seconds()
+	ctx.Extra["fresh_processes_wall_s"] = time.Since(t1).Seconds()
 }
 
 func m1(ctx *core.Ctx) {
@@ -371,6 +375,15 @@ func exploreCase(ctx *core.Ctx, c *Case, st *exploreState, repsID, repsOther int
 		key := OrderKey(p)
 		for _, comp := range Components {
 			if cs.reported[comp] || explained(comp) {
+				continue
+			}
+			dep := false
+			for _, d := range dependsOn(comp) {
+				if d != comp && cs.reported[d] {
+					dep = true // an earlier component that this one depends on already differs
+				}
+			}
+			if dep {
 				continue
 			}
 			a, b := refs[id][comp], refs[key][comp]
